@@ -60,6 +60,31 @@ def gen_point(rng):
         t = 0.015 * a[1]
         a[2] = rng.choice([t, t * (1 - 5e-8), t * (1 + 5e-8), math.nextafter(t, 0), math.nextafter(t, 1)])
         kind = 'sliding-flow'
+    elif r < 0.55:
+        # the viscous sub-layer cap of the homogeneous model (11.6 nu / (u* d) = 1), located by bisection on the line speed; half of these points in the corner
+        # where the cap meets the sliding-flow blend (gravel in a small pipe at a crawl: d >= 0.015 Dp)
+        from DHLLDV import homogeneous as Ho
+        if rng.random() < 0.5:
+            a[1] = rng.uniform(0.1, 0.15)
+            a[2] = rng.uniform(0.015 * a[1], min(0.25 * a[1], 2.4e-3))
+
+        def over(v):
+            lam = Ho.swamee_jain_ff(Ho.pipe_reynolds_number(v, a[1], a[4]), a[1], a[3])
+            return 11.6 * a[4] / ((lam / 8) ** 0.5 * v * a[2]) - 1
+        try:
+            if over(0.1) > 0 > over(10.0):
+                lo_, hi_ = 0.1, 10.0
+                for _ in range(200):
+                    m_ = (lo_ + hi_) / 2
+                    if over(m_) > 0:
+                        lo_ = m_
+                    else:
+                        hi_ = m_
+                t = (lo_ + hi_) / 2
+                a[0] = rng.choice([t, t * (1 - 5e-8), t * (1 + 5e-8)])
+                kind = 'sublayer-cap' + ('+sliding-flow' if a[2] >= 0.015 * a[1] else '')
+        except Exception:   # noqa
+            pass
     return tuple(a), kind
 
 
